@@ -53,6 +53,10 @@ def gen_cases(rng, tier):
       nr = rng.choice([8, 12, 16, 20, 40, 100, 200, 400] + big)
     model = spec.gen_pair_model(rng, groute, target=rng.choice(["DL_POLY", "DLPOLY"]), nr_choices=[nr], maxlabel=8,
                                 depth=1 if reject else 2, rmax_scale=lambda n: n / max(1.0, n - 4.0))
+    if route.startswith("api") and not reject:
+      model["api_variant"] = rng.choice([None, None, "tuple", "int_cutoff", "kwargs", "realfile"])
+      if model["api_variant"] == "int_cutoff":
+        model["tab"]["cutoff"] = float(rng.randint(1, 20))
     cases.append({"route": route, "model": model, "style": rng.randrange(1 << 30), "reject": reject})
   # a discontinuity of V exactly on a grid point of a grid whose step is NOT a dyadic fraction (r accumulates
   # rounding there): energy and force of that row must still come from one and the same branch
@@ -180,12 +184,13 @@ def run_case(case, ctx):
         if route == "api_class":
           tab = routes.pair_tab_api(model, target="DLPOLY")
           pots = tab.potentials
-          text = routes.write_tab(tab)
+          text = routes.write_to_real_file(tab.write) if model.get("api_variant") == "realfile" else routes.write_tab(tab)
+          ctx.cls("api_variant:%s" % model.get("api_variant"))
         elif route == "api_legacy":
           import atsim.potentials as ap
           pots = routes.pair_potentials_api(model)
           out = io.StringIO()
-          ap.writePotentials("DL_POLY", pots, cutoff, nr, out)
+          ap.writePotentials("DL_POLY", tuple(pots) if model.get("api_variant") == "tuple" else pots, int(cutoff) if model.get("api_variant") == "int_cutoff" else cutoff, nr, out)
           text = out.getvalue()
         else:
           text_in = emit.model_text(model, emit.Style(rng))
